@@ -127,9 +127,13 @@ type concBins struct {
 // runConcJob runs one simconc job; for race binaries it handles exit code 66.
 func (e *Env) concJob(bin, variant string, from, n, sites int, race bool, id string, extra ...string) *Job {
 	j := &Job{Bin: bin, Variant: variant, World: "conc", Prop: "C20", From: from, N: n, Extra: append([]string{"-sites", fmt.Sprint(sites)}, extra...), Timeout: 20 * time.Minute}
+	// One P: the tasks are serialised anyway, and with a single P the
+	// per-P caches of sync.Pool (which a changed library might use) behave
+	// the same in every process, so such runs replay too.
+	j.Env = []string{"GOMAXPROCS=1"}
 	if race {
 		j.RaceLog = filepath.Join(e.WorkDir, "race-"+id)
-		j.Env = []string{"GORACE=halt_on_error=1 exitcode=66 log_path=" + j.RaceLog}
+		j.Env = append(j.Env, "GORACE=halt_on_error=1 exitcode=66 log_path="+j.RaceLog)
 	}
 	return j
 }
